@@ -274,7 +274,7 @@ Definition nth_obs {A} (i : nat) (l : list (list A)) : list A := nth i l [].
 
 (* what the comparison of strings found: specification agrees, boreal agrees, the fixed-offset
    class explained a difference, an ambiguous fullword regex is present, it explained a difference *)
-(* q_sp: 0, or the class (11, 19) of a per-string finding that explained a difference on this input
+(* q_sp: 0, or the class (11, 19, 20) of a per-string finding that explained a difference on this input
    (such a difference may also change the verdicts of the rules that use the string) *)
 Record sres := { q_spec : bool; q_boreal : bool; q_fix : bool; q_amb : bool; q_amb_used : bool; q_sp : N }.
 Definition mk_sres (sp bo fx am amu : bool) (st : N) : sres :=
@@ -349,6 +349,26 @@ Definition alt_first_uneven (s : sdecl) : bool :=
   end.
 Definition K_ALT_FIRST : N := 19.
 
+Definition has_word_boundary (s : sdecl) : bool :=
+  match s with
+  | SRegex n _ _ _ =>
+      hsub (fun x => match x with HAssert WordBoundary | HAssert NonWordBoundary => true | _ => false end)
+           (node_to_hir n)
+  | _ => false
+  end.
+
+(* ---- recorded finding 20 (C07-wide-ascii-boundary): a regex that is both `wide` and `ascii` and has a
+   word-boundary assertion.  On the path without atoms boreal judges \b / \B of the *wide* reading on
+   the neighbouring bytes, not on the neighbouring wide characters: `/\b[a-z].[a-z]\b/s wide ascii` on
+   `a\0e\0 \0q\0`: libyara (and Spec/Regex.v): (0,3) only; boreal also (2,6) — `e` is preceded by the
+   wide character `a`, there is no boundary.  With `wide` alone boreal is right. *)
+Definition wide_ascii_boundary (s : sdecl) : bool :=
+  match s with
+  | SRegex _ _ _ md => x_wide md && x_ascii md && has_word_boundary s
+  | _ => false
+  end.
+Definition K_WIDE_ASCII_WB : N := 20.
+
 (* the full list a fixed-offset string would have had in libyara: every offset the specification
    predicts, with libyara's length where libyara kept the match and the longest member length
    elsewhere (the length only bounds where a later saved start may lie, see start_position_shape) *)
@@ -388,8 +408,9 @@ Fixpoint strings_check (cond : option expr) (m : bytes) (ss : list sdecl) (nl : 
         let exact := string_agree s m y b in
         let shape := negb exact && start_position_shape s m (nth v nl 0) y b in
         let altf := negb exact && negb shape && alt_first_uneven s && (1 <? nth v nl 0) in
-        mk_sres (string_spec_ok s m y) (exact || shape || altf) false false false
-                (if altf then K_ALT_FIRST else if shape then K_START_POS else 0))
+        let wab := negb exact && negb shape && wide_ascii_boundary s in
+        mk_sres (string_spec_ok s m y) (exact || shape || altf || wab) false false false
+                (if wab then K_WIDE_ASCII_WB else if altf then K_ALT_FIRST else if shape then K_START_POS else 0))
   end.
 
 (* a rule that is not reported (private): its strings cannot be compared; an ambiguous one makes the
@@ -545,13 +566,6 @@ Definition C07_case (rs : list crule) (ins : list bytes) (ys bs : list (list obs
    the regex engine on the span boreal hands it) with a regex string that contains a word-boundary
    assertion: `/_\b_c11_A xa|\D/` on `__c11_A xa`.  Class: boreal panicked and some regex string of the
    file has `\b` or `\B`. *)
-Definition has_word_boundary (s : sdecl) : bool :=
-  match s with
-  | SRegex n _ _ _ =>
-      hsub (fun x => match x with HAssert WordBoundary | HAssert NonWordBoundary => true | _ => false end)
-           (node_to_hir n)
-  | _ => false
-  end.
 Definition K_SPAN_PANIC : N := 18.
 
 Definition C07_rejected (rs : list crule) (panicked : bool) : bool * bool * N :=
